@@ -28,7 +28,7 @@ func (p Params) Validate() error {
 	if interfaceFeeRate.IsNegative() {
 		return errorsmod.Wrap(sdkerrors.ErrInvalidRequest, "interface fee rate must not be negative")
 	}
-	if interfaceFeeRate.GT(math.LegacyOneDec()) {
+	if interfaceFeeRate.GTE(math.LegacyOneDec()) {
 		return errorsmod.Wrap(sdkerrors.ErrInvalidRequest, "interface fee rate must be less than 1")
 	}
 
